@@ -518,6 +518,27 @@ def apiStep (authorized : Bool) (s : PState) (req : ApiReq) : PState :=
     | none => s
   else s
 
+/-- what `readBatchKeys` can find in the body of a batch request
+(`http.MaxBytesReader` + `json.Decoder` with `DisallowUnknownFields`). -/
+inductive BatchBody
+  | keys (ks : List Str)     -- a well-formed `{"keys":[...]}` within the size cap
+  | malformed                -- not JSON / wrong type for `keys`
+  | unknownField             -- a field other than `keys`
+  | tooLarge                 -- more than `maxBlockBatchBody` bytes
+deriving Repr, DecidableEq
+
+/-- the keys the handler goes on with; `none` = it answered 400 and returned. -/
+def readBatchKeys : BatchBody → Option (List Str)
+  | .keys ks => if ks.isEmpty then none else some ks
+  | _ => none
+
+/-- a batch request as a whole: `checkToken`, `readBatchKeys`, then the batch call. -/
+def apiBatch (authorized : Bool) (isSet : Bool) (s : PState) (body : BatchBody) : PState × Nat :=
+  if !authorized then (s, 401) else
+  match readBatchKeys body with
+  | none => (s, 400)
+  | some ks => (apiStep true s (if isSet then .setBatch ks else .removeBatch ks), 200)
+
 /-! ### Part 6 — the specification on labels
 
 A name is a list of labels, leftmost first; the root is `[]`.  A parent is a
